@@ -1421,7 +1421,7 @@ fn channels() -> Vec<Channel> {
             lean: "Loop.solve / C04.terminates, iter_le_max, terminal_status, maxtime; C20.iteration_column" },
         Channel { name: "info.check_termination", tol: Tol::Exact, run: run_check_termination,
             oracle: Some(oracle_check_termination), modelled: true,
-            rust_fn: "DefaultInfo::check_termination / check_convergence_full / is_solved / is_*_infeasible",
+            rust_fn: "DefaultInfo::check_termination / check_convergence_full / is_solved / is_*_infeasible (called through the hook; residuals_with is hook scaffolding, not solver code: it builds the DefaultResiduals carrying dot_bz, dot_qx)",
             lean: "Loop.checkTermination / C04.check_termination_limits" },
         Channel { name: "info.post_process", tol: Tol::Exact, run: run_post_process, oracle: Some(oracle_post_process),
             modelled: true, rust_fn: "DefaultInfo::post_process / check_convergence_almost",
@@ -1429,7 +1429,7 @@ fn channels() -> Vec<Channel> {
         Channel { name: "info.save_reset", tol: Tol::Exact, run: run_save_reset, oracle: None, modelled: true,
             rust_fn: "DefaultInfo::save_prev_iterate / reset_to_prev_iterate", lean: "Loop.Info.savePrev / resetToPrev" },
         Channel { name: "loop.checkpoint", tol: Tol::Exact, run: run_checkpoint, oracle: Some(oracle_checkpoint),
-            modelled: true, rust_fn: "strategy_checkpoint_{insufficient_progress,numerical_error,small_step,is_scaling_success}",
+            modelled: true, rust_fn: "strategy_checkpoint_insufficient_progress, strategy_checkpoint_numerical_error, strategy_checkpoint_small_step, strategy_checkpoint_is_scaling_success (core/solver.rs, each called through the hook); they read and write the status through InfoTrait::get_status / set_status of DefaultInfo (the status afterwards is part of the response)",
             lean: "Loop.cpInsufficientProgress / cpNumericalError / cpSmallStep / cpIsScalingSuccess (+ …Status) / C07.step_in_unit" },
         Channel { name: "new.check_dimensions", tol: Tol::Exact, run: run_check_dimensions,
             oracle: Some(oracle_check_dimensions), modelled: true, rust_fn: "DefaultSolver::new / _check_dimensions",
@@ -1439,7 +1439,7 @@ fn channels() -> Vec<Channel> {
         Channel { name: "solve.boundary", tol: Tol::Exact, run: run_boundary, oracle: Some(oracle_solve), modelled: false,
             rust_fn: "DefaultSolver::new + solve on boundary shapes", lean: "-" },
         Channel { name: "timers.script", tol: Tol::Exact, run: run_timers_script, oracle: Some(oracle_timers_script), modelled: true,
-            rust_fn: "Timers::{start_as_current,stop_current,suspend,resume,reset_timer,total_time}, InnerTimer::*, SubTimersMap::* (timers/timers.rs)",
+            rust_fn: "Timers::{start_as_current,stop_current,suspend,resume,reset_timer,total_time,mut_active_timer (walk down the stack; unwrap on a missing level)}, InnerTimer::{reset,start,stop,suspend,resume,elapsed}, SubTimersMap::{reset_subtimer,start_subtimer,suspend,resume,total_time} and its Deref/DerefMut to the HashMap (deref, deref_mut); stop_subtimer is #[allow(dead_code)] with no caller (nothing to tie) (timers/timers.rs)",
             lean: "Timers.step / run / totalTime; C04.timers_*" },
         Channel { name: "timers.solve", tol: Tol::Exact, run: run_timers_solve, oracle: Some(oracle_timers_solve), modelled: true,
             rust_fn: "timeit!/notimeit! expansions in DefaultSolver::new and Solver::solve; DefaultInfo::{reset,update,finalize} (timer part)",
